@@ -134,7 +134,34 @@ func c41CheckTree(root *Node, isDoc bool, st *c41Stats) (sigTail, what string) {
 		return "returned-root-still-attached", fmt.Sprintf("returned node %s has Parent=%v Prev=%v Next=%v", c41Name(root), root.Parent != nil, root.PrevSibling != nil, root.NextSibling != nil)
 	}
 	const maxNodes = 100000
-	seen := map[*Node]bool{}
+	// small trees: linear scan of a slice; large ones: a map
+	var seenList []*Node
+	var seenMap map[*Node]bool
+	isSeen := func(n *Node) bool {
+		if seenMap != nil {
+			return seenMap[n]
+		}
+		for _, m := range seenList {
+			if m == n {
+				return true
+			}
+		}
+		return false
+	}
+	markSeen := func(n *Node) int {
+		if seenMap != nil {
+			seenMap[n] = true
+			return len(seenMap)
+		}
+		seenList = append(seenList, n)
+		if len(seenList) > 48 {
+			seenMap = make(map[*Node]bool, 128)
+			for _, m := range seenList {
+				seenMap[m] = true
+			}
+		}
+		return len(seenList)
+	}
 	type frame struct {
 		n     *Node
 		depth int
@@ -144,11 +171,10 @@ func c41CheckTree(root *Node, isDoc bool, st *c41Stats) (sigTail, what string) {
 		f := stack[len(stack)-1]
 		stack = stack[:len(stack)-1]
 		n := f.n
-		if seen[n] {
+		if isSeen(n) {
 			return "node-reachable-twice", fmt.Sprintf("node %s is reachable through two child lists or a cycle", c41Name(n))
 		}
-		seen[n] = true
-		if len(seen) > maxNodes {
+		if markSeen(n) > maxNodes {
 			return "tree-unbounded", "more than 100000 nodes reachable"
 		}
 		st.nodes++
@@ -222,6 +248,26 @@ func c41Name(n *Node) string {
 	return fmt.Sprintf("%v %q", n.Type, n.Data)
 }
 
+// c41Sink is a discarding writer that implements the package's fast-path
+// writer interface (Write, WriteByte, WriteString), so Render does not
+// allocate a bufio.Writer per call.
+type c41Sink struct{ n int }
+
+func (s *c41Sink) Write(p []byte) (int, error)       { s.n += len(p); return len(p), nil }
+func (s *c41Sink) WriteByte(byte) error              { s.n++; return nil }
+func (s *c41Sink) WriteString(x string) (int, error) { s.n += len(x); return len(x), nil }
+
+// c41Render renders through both writer paths of Render: the fast path and,
+// for the plain io.Writer path (bufio wrapper), io.Discard when the tree has
+// a plaintext element (the only place where the two paths differ: the
+// plaintext abort must be swallowed in both).
+func c41Render(n *Node, viaBufio bool) error {
+	if viaBufio {
+		return Render(io.Discard, n)
+	}
+	return Render(&c41Sink{}, n)
+}
+
 // c41ErrClass turns an error message into a signature component.
 func c41ErrClass(err error) string {
 	s := err.Error()
@@ -292,7 +338,7 @@ func c41Document(w *vx.W, in string) {
 			w.Failf("C41/tree/"+sig, "%s of %q: %s", cfg, in, what)
 			return
 		}
-		if err := Render(io.Discard, doc); err != nil {
+		if err := c41Render(doc, strings.Contains(in, "plaintext")); err != nil {
 			w.Failf("C41/render/error:"+c41ErrClass(err), "Render of the tree returned by %s of %q failed: %v", cfg, in, err)
 			return
 		}
@@ -326,7 +372,7 @@ func c41Fragment(w *vx.W, in string, ctxs []c41Ctx) {
 					w.Failf("C41/fragment-tree/"+sig, "%s of %q, result node %d: %s", cfg, in, i, what)
 					return
 				}
-				if err := Render(io.Discard, n); err != nil {
+				if err := c41Render(n, strings.Contains(in, "plaintext") || cx.name == "plaintext"); err != nil {
 					w.Failf("C41/render/error:"+c41ErrClass(err), "Render of result node %d (%s) of %s of %q failed: %v", i, c41Name(n), cfg, in, err)
 					return
 				}
